@@ -78,8 +78,8 @@ func TestReplayC04(t *testing.T) {
 func TestC04Exhaustive(t *testing.T) {
 	rec := harness.Get("C04")
 	rec.SetScope("exhaustive")
-	sels := []string{"", ":1", ":first", ":last", ":all", ":2", ":x"}
-	targets := []string{"struct", "slice", "map"}
+	sels := []string{"", ":1", ":first", ":last", ":all", ":2", ":x", ":struct", ":slice", ":0"}
+	targets := []string{"struct", "slice", "map", "first", "last", "all"}
 	n := 0
 	for _, sel := range sels {
 		for _, tg := range targets {
@@ -102,7 +102,7 @@ func TestC04Exhaustive(t *testing.T) {
 					mk := func(i int) bcl.Block {
 						return bcl.Block{Type: "s", Name: fmt.Sprintf("n%d", i), Fields: map[string]any{"k": i + 1}}
 					}
-					bad := sel == ":2" || sel == ":x" || tg == "map" || (sel == ":all" && tg != "slice")
+					bad := sel == ":2" || sel == ":x" || sel == ":struct" || sel == ":slice" || sel == ":0" || (tg != "struct" && tg != "slice") || (sel == ":all" && tg != "slice")
 					viol := ""
 					switch {
 					case a.Panic != nil:
@@ -161,7 +161,7 @@ func TestC04Exhaustive(t *testing.T) {
 		}
 	}
 	rec.SetExtra("exhaustive_subspace_cases", n)
-	rec.SetExtra("exhaustive_subspace", "all 7 selector spellings x 3 targets x 0..3 candidate blocks x {no, one} prior bind")
+	rec.SetExtra("exhaustive_subspace", "all 10 selector spellings x 6 targets x 0..3 candidate blocks x {no, one} prior bind")
 }
 
 var _ = gen.DefaultNames
